@@ -179,6 +179,33 @@ func in(needle interface{}, array interface{}) bool {
 	panic(fmt.Sprintf(`operator "in"" not defined on %T`, array))
 }
 
+// deepEqual is the fallback of the generated equal(): sequences are compared
+// element by element with equal(), whatever their Go element types, so that a
+// range, a []int constant and an array literal holding the same numbers are
+// equal (as the language definition documents: 1..3 == [1, 2, 3]).
+func deepEqual(a, b interface{}) bool {
+	va, vb := reflect.ValueOf(a), reflect.ValueOf(b)
+	isSeq := func(v reflect.Value) bool {
+		return v.Kind() == reflect.Slice || v.Kind() == reflect.Array
+	}
+	if isSeq(va) && isSeq(vb) {
+		if va.Len() != vb.Len() {
+			return false
+		}
+		for i := 0; i < va.Len(); i++ {
+			x, y := va.Index(i), vb.Index(i)
+			if !x.CanInterface() || !y.CanInterface() {
+				return reflect.DeepEqual(a, b)
+			}
+			if !equal(x.Interface(), y.Interface()).(bool) {
+				return false
+			}
+		}
+		return true
+	}
+	return reflect.DeepEqual(a, b)
+}
+
 func length(a interface{}) int {
 	v := reflect.ValueOf(a)
 	switch v.Kind() {
